@@ -1,3 +1,3 @@
 From MptV Require Import Base.Mem C13.QueueModel Cobs.CobsModel Cobs.DecModel Cobs.QueueCodec Cobs.StreamSpec Cobs.StreamRun Cobs.GlueRun.
 Require Import ExtrOcamlBasic.
-Extraction "stream_model.ml" sspec_run mkss wrun world_init v_cobs v_cobs_r v_zpe v_zpe_r contents grun gworld_init gop_sop.
+Extraction "stream_model.ml" sspec_run mkss wrun world_init v_cobs v_cobs_r v_zpe v_zpe_r contents grun gworld_init gop_sop sdec split_frames.
